@@ -203,3 +203,39 @@ func erasureOracle(cx *CheckCtx, runs []*CaseRun, prop string, sampleN int) []Fi
 	}
 	return fs
 }
+
+// genFileLevelHistory: header comments, package comments and CanonicalPath set, changed and
+// cleared BETWEEN renders of one File.
+func genFileLevelHistory(cx *CheckCtx, i int) *Case {
+	r := cx.R.Fork()
+	c := &Case{ID: fmt.Sprintf("C15-filelevel-%d-%d", cx.Seed, i)}
+	c.Ops = append(c.Ops, Op{Kind: OpFile, F: 0, Str: []string{"new", "", pick(r, []string{"p", "main", "foo"})}})
+	if r.Chance(35) {
+		c.Ops = append(c.Ops, Op{Kind: OpSet, F: 0, Str: []string{"noformat", "1"}})
+	}
+	n := 0
+	mutate := func() {
+		n++
+		switch r.Intn(4) {
+		case 0:
+			c.Ops = append(c.Ops, Op{Kind: OpSet, F: 0, Str: []string{"canonical", pick(r, []string{"a.com/canon", "b.org/x/other", "", "x"})}})
+		case 1:
+			c.Ops = append(c.Ops, Op{Kind: OpHeader, F: 0, Str: []string{fmt.Sprintf("generated header %d", n)}})
+		case 2:
+			c.Ops = append(c.Ops, Op{Kind: OpPkgComment, F: 0, Str: []string{fmt.Sprintf("Package doc line %d.", n)}})
+		default:
+			c.Ops = append(c.Ops, Op{Kind: OpFAdd, F: 0, Args: []Arg{st(kw("Var"), id(fmt.Sprintf("v%d", n)), kw("Int"))}})
+		}
+	}
+	for k := 0; k < r.Intn(3); k++ {
+		mutate()
+	}
+	c.Ops = append(c.Ops, Op{Kind: OpFAdd, F: 0, Args: []Arg{st(kw("Var"), id("x"), kw("Int"))}}, Op{Kind: OpRender, F: 0})
+	for round := 0; round < 1+r.Intn(4); round++ {
+		for k := 0; k < 1+r.Intn(2); k++ {
+			mutate()
+		}
+		c.Ops = append(c.Ops, Op{Kind: OpRender, F: 0})
+	}
+	return c
+}
